@@ -122,6 +122,7 @@ class CaseSet:
         self.meta = []       # per answer: dict describing the case
         self.worlds = []     # (slot, wj, elab)
         self.model_ok = []   # per world: can the model evaluate it?
+        self.seeds_used = set()   # seeds whose mt19937 stream the model generated
         self.has_lines = []  # per world: slabs/faults in the model (implementation side runs with the culling hook off)
         self.surface_bounds = []   # (world, key, reported min, max, nodal min, max) where the pre-test extrema miss a nodal value
 
@@ -162,8 +163,10 @@ class CaseSet:
             if el.uses_random:
                 sd = wj.get("random number seed", -1)
                 sd = seed if sd is None or sd < 0 else sd
-                dr = common.parse_vec(common.run_probe(["draws %d 30000" % sd])[0])
-                tape = "(tape_of [|%s|])" % "; ".join(ml(x) for x in dr)
+                # the draws come from the model's own engine (coq/Mt19937.v: std::mt19937 + generate_canonical), no longer
+                # borrowed from the implementation; lib/c15.py compares the two streams draw by draw
+                tape = "(engine_tape (n_of_int %d))" % (sd % 4294967296)
+                self.seeds_used.add(sd)
             self.mlines.append("let t%d = ref O\nlet w%d = %s %s\nlet () = out_str \"ok\"" % (slot, slot, term, tape))
         else:
             self.mlines.append("let () = out_str \"skip\"")
